@@ -145,16 +145,17 @@ PROPS = {
     },
     'C17': {
         'modules': ['SE.Props.C17', 'SE.Gen.TieRelay'],
-        'streams': [{'component': 'relay', 'confirm': True}],
+        'streams': [{'component': 'relay', 'confirm': True}, {'component': 'framerelay', 'confirm': True}],
         'level': 'proof',
         'trusted_base': ["Go `select` picks any ready case; channel/goroutine semantics as encoded in the step relation of SE/Model/Relay.lean", "loopback UDP delivers datagrams intact and in order", "the deterministic stream lets the sender take each line before the next operation (hook VerifPending); other schedules are covered only by the model's theorems"],
         'assumptions': [],
     },
     'C18': {
-        'modules': ['SE.Props.C18', 'SE.Gen.TieDeps'],
-        'streams': [{'component': 'frame', 'confirm': True, 'note_kinds': {'frame'}}, {'component': 'udpq', 'confirm': True}],
+        'modules': ['SE.Props.C18', 'SE.Gen.TieDeps', 'SE.Gen.TieSync'],
+        'streams': [{'component': 'frame', 'confirm': True, 'note_kinds': {'frame'}}, {'component': 'udpq', 'confirm': True},
+                    {'component': 'tcpconc', 'confirm': True}, {'component': 'framerelay', 'confirm': True}],
         'level': 'proof',
-        'trusted_base': ["bufio.Reader.ReadLine (4096-byte buffer) modelled from the Go standard library source at the level of buffer + chunks", "the kernel delivers loopback datagrams intact and TCP bytes in order; real TCP segmentation is whatever the kernel does with the generated writes", "goroutine scheduling of reader/processor and concurrent TCP connections are not in the model (partial)"],
+        'trusted_base': ["bufio.Reader.ReadLine (4096-byte buffer) modelled from the Go standard library source at the level of buffer + chunks", "the kernel delivers loopback datagrams intact and TCP bytes in order; real TCP segmentation is whatever the kernel does with the generated writes", "goroutine scheduling of reader/processor is in the model as an arbitrary operation sequence; concurrent TCP connections are modelled as independent per-connection runs, justified by the regenerated fact that listener methods write no receiver field (SE.Gen.Tie.listeners_keep_no_state) and sampled by the tcpconc stream"],
         'assumptions': [],
     },
     'C20': {
